@@ -192,6 +192,9 @@ class Ctx:
         if env:
             e.update(env)
         r = self.tlc(module, cfg, workers=1, timeout=timeout, env=e, xmx=xmx, queue_dfs=True)
+        if r.violated:
+            raise Inconclusive("an invariant of %s is violated on a spec behaviour reached by a recorded trace (model inconsistency, not a verdict): %s\n%s" %
+                               (module, r.violated, r.out[-3000:]))
         m = re.search(r'"REJECTED at event",\s*(\d+),\s*(.*?)\s*>>\s+FALSE', r.out, re.S)
         if m:
             return False, {"index": int(m.group(1)), "event": re.sub(r"\s+", " ", m.group(2))[:600], "tlc": r}
